@@ -407,6 +407,8 @@ func RunC11(c *core.Ctx) {
 	if n == 0 || n != expected {
 		core.Fatalf("received %d cases from TLC, the grid has %d", n, expected)
 	}
+	// contracts kept by a contract service: only master keys of a contract the service currently allows mint keys
+	ContractsStage(c)
 	c.Set("evaluations", n)
 	c.Set("distinct_nontrivial", ok200)
 	c.Set("explained_by_known_findings", known)
